@@ -32,6 +32,20 @@ Theorem C18_binding : forall hmac : list byte -> list byte -> list byte,
 Proof. exact cookie_binding. Qed.
 Print Assumptions C18_binding.
 
+(* "when no secret is configured each server connection draws its own random one": nil and the
+   empty slice both count as unconfigured, and a cookie computed under any key other than the
+   connection's own draw (the empty key, another connection's draw) is not accepted *)
+Theorem C18_unconfigured_secret_is_drawn : forall hmac : list byte -> list byte -> list byte,
+  (forall k m k' m', hmac k m = hmac k' m' -> k = k' /\ m = m') ->
+  forall configured drawn,
+    (length configured = 0 -> effective_secret configured drawn = drawn) /\
+    (length configured <> 0 -> effective_secret configured drawn = configured) /\
+    (forall other addr p addr' p', length configured = 0 ->
+       verify_cookie hmac (effective_secret configured drawn) addr p (gen_cookie hmac other addr' p') = true ->
+       other = drawn).
+Proof. exact unconfigured_secret. Qed.
+Print Assumptions C18_unconfigured_secret_is_drawn.
+
 Theorem C18_roundtrip : forall hmac secret addr params,
   verify_cookie hmac secret addr params (gen_cookie hmac secret addr params) = true.
 Proof. exact cookie_roundtrip. Qed.
